@@ -223,9 +223,10 @@ def check_case(case, res=None):
                     # specification prescribes at that point (reference interpreter), fault-free run
                     ip = Interp(an)
                     ref_trace = None
+                    ref_bytes = None
                     try:
                         if call["kind"] == "ser":
-                            ip.serialize(c["body"], valuegen.from_json(call["obj"]), c["lex"], mode, label=it["cls"][-1])
+                            ref_bytes = ip.serialize(c["body"], valuegen.from_json(call["obj"]), c["lex"], mode, label=it["cls"][-1])
                             ref_trace = ip.trace
                         elif ip.deserialize(c["body"], bytes.fromhex(call["hex"]), c["lex"], mode, label=it["cls"][-1])[0] == "ok":
                             ref_trace = ip.trace
@@ -237,6 +238,11 @@ def check_case(case, res=None):
                         raise Violation(f"nested_calls_entered_in_prescribed_mode:{call['kind']}", dict(cj, fault_at=-1),
                                         ref_trace[first:first + 3], list(watch.trace)[first:first + 3],
                                         f"call #{first} of the call tree (class, mode at entry)")
+                    if ref_bytes is not None and raised0 is None and bytes(io.to_bytearray()) != bytes(ref_bytes):
+                        # "never sanitised as chunked unless it says so, and vice versa": what is written under this
+                        # entry mode is what the specification prescribes (break bytes and y-diaeresis included)
+                        raise Violation("sanitised_as_prescribed:ser", dict(cj, fault_at=-1), bytes(ref_bytes).hex(),
+                                        bytes(io.to_bytearray()).hex(), f"entry mode {mode}")
                     if ref_trace is not None and res is not None:
                         res.labels["call_trees_compared"] += 1
                     faults = [-1] + sorted({f % (nops + 1) for f in call["faults"]})
@@ -280,7 +286,7 @@ def cases(draw, n_classes=3):
         idxs = draw(st.lists(st.integers(0, len(classes) - 1), min_size=k, max_size=k, unique=True))
         vg = valuegen.ValueGen(an, big_lengths=False)
         pick = lambda seq: draw(st.sampled_from(list(seq)))  # noqa
-        faults = st.lists(st.integers(0, 10 ** 6), min_size=2, max_size=3)
+        faults = st.lists(st.integers(0, 10 ** 6), min_size=2, max_size=3, unique=True)
         for i in idxs:
             c = classes[i]
             calls = []
